@@ -869,6 +869,7 @@ type qSim struct {
 	schedQ                    []qOp
 	bindQ                     []func()
 	quotaAdding               string
+	migratorSeq               int             // migrate passes started so far
 	quotaDeleting             string          // name of the quota whose OnQuotaDelete is in progress
 	podEvQuotas               map[string]int  // quota label -> pod events / cycle steps of its pods in progress
 	rebuildSeq, rebuildActive int             // deliveries of tree-rebuilding quota updates: +1 at start and at end / currently in progress
@@ -957,6 +958,7 @@ func (s *qSim) aroundPodEvent(pod *corev1.Pod, fn func()) {
 		// re-check that the pod is still there
 		s.r.Tag("pod-event-during-migration")
 	}
+	passesBefore := s.migratorSeq
 	lab := pod.Labels[extension.LabelQuotaName]
 	if lab != "" {
 		if lab == s.quotaDeleting {
@@ -970,6 +972,11 @@ func (s *qSim) aroundPodEvent(pod *corev1.Pod, fn func()) {
 		if lab == s.quotaDeleting {
 			s.r.Tag("pod-event-overlaps-own-quota-delete")
 		}
+	}
+	if parked && (s.busy["migrator"] || s.migratorSeq != passesBefore) {
+		// (both sides of the call: a migrate pass that STARTS while this event is parked inside its handler snapshots
+		// the default quota's pods with this pod still in it)
+		s.r.Tag("pod-event-during-migration")
 	}
 	if parked && s.quotaKnown(pod) {
 		s.r.Tag("parked-pod-event")
@@ -1143,6 +1150,7 @@ func (s *qSim) cycle(op qOp, strict bool) {
 		// nothing else runs: let the 1s migrate ticker fire first, so that pods parked in the default quota whose quota has
 		// arrived meanwhile are where the reference model (which looks at the store) has them
 		s.busy["migrator"] = true
+		s.migratorSeq++
 		s.pl.migrateDefaultQuotaGroupsPod()
 		s.busy["migrator"] = false
 		if s.cfg.Runtime {
@@ -1393,6 +1401,7 @@ func (quotaEngine) Execute(r *sim.Run) {
 					// (there is ONE migrate goroutine: a pass never overlaps the pass a strict attempt lets fire)
 					r.WaitUntil("migrator", func() bool { return !s.busy["migrator"] })
 					s.busy["migrator"] = true
+					s.migratorSeq++
 					s.pl.migrateDefaultQuotaGroupsPod()
 					s.busy["migrator"] = false
 				}
